@@ -18,21 +18,7 @@ Proof.
     assert (HA : o_where (go s o0) = PChan T hi).
     { apply W. simpl. unfold vchan. rewrite Hv. apply in_or_app; right; left; reflexivity. }
     apply nodup_app_single in Nd as [Nd1 Nd2].
-    destruct (o_id (go s o0) =? 0) eqn:Ez.
-    + split; [|split].
-      * apply (where_ok_move s _ o0 (PChan T hi) P0); auto.
-        -- intros o pl Hocc. destruct pl; occ_transfer Hocc.
-           destruct (eqb hi0 hi) eqn:Eh; [apply eqb_prop in Eh; subst hi0|right; exact Hocc].
-           right. simpl. unfold vchan. fold T. rewrite Hv. apply in_or_app; left; exact Hocc.
-        -- intros _ Hocc. occ_transfer Hocc. rewrite eqb_reflx in Hocc. contradiction.
-        -- intros o. autorewrite with frame. destruct (o =? o0); reflexivity.
-      * repeat split; intros; unfold_views; autorewrite with frame; eqb_cases; simpl;
-          rewrite ?vchan_set_chan; auto; try apply N1; try apply N2; try apply N3.
-        destruct (eqb hi0 hi); [exact Nd1|apply N1].
-      * apply (ids_ok_set_where s _ o0 P0 I); [right; reflexivity| |].
-        -- intros c0. autorewrite with frame. reflexivity.
-        -- intros o. autorewrite with frame. reflexivity.
-    + split; [|split].
+    split; [|split].
       * apply (where_ok_move s _ o0 (PChan T hi) (PXHold k)); auto.
         -- intros o pl Hocc. destruct pl; occ_transfer Hocc.
            ++ destruct (eqb hi0 hi) eqn:Eh; [apply eqb_prop in Eh; subst hi0|right; exact Hocc].
